@@ -37,6 +37,7 @@ type Report struct {
 	Samples      []any          `json:"samples"`
 	Distribution map[string]int `json:"distribution"`
 	Violations   []Violation    `json:"violations"`
+	NViolations  int            `json:"violations_total"`
 	Notes        []string       `json:"notes,omitempty"`
 	WallS        float64        `json:"wall_s"`
 }
@@ -85,6 +86,10 @@ func inFlight(engine string, replay any) {
 
 // violation records a violation and writes its replay file.
 func (r *Report) violation(prop, kind, sig, what string, replay any) {
+	r.NViolations++
+	if len(r.Violations) >= 50 {
+		return // enough concrete replays on file; keep counting
+	}
 	replaySeq++
 	_ = os.MkdirAll(*flagRepl, 0o755)
 	path := filepath.Join(*flagRepl, fmt.Sprintf("%s-%s-seed%d-%d.json", prop, r.Engine, *flagSeed, replaySeq))
